@@ -652,7 +652,7 @@ func genCalls(r *rand.Rand, in *In, perG int) {
 
 func generate(o *hx.Opts) []In {
 	r := o.Rand(19)
-	n := o.N(150, 3000)
+	n := o.N(150, 8000)
 	procsQuick := []int{2, 4, 8, 16}
 	procsAll := []int{1, 2, 3, 4, 8, 16, 32}
 	var out []In
@@ -726,7 +726,14 @@ func Run(o *hx.Opts, w *lineio.Writer) error {
 			if in.Kind == "worker" {
 				continue
 			}
-			cases = append(cases, in)
+			// schedule-dependent: a replayed plan is re-run several times, every run judged
+			reps := 10
+			if in.Kind != "upd" {
+				reps = 1
+			}
+			for k := 0; k < reps; k++ {
+				cases = append(cases, in)
+			}
 		}
 	} else {
 		cases = generate(o)
@@ -753,6 +760,6 @@ func Run(o *hx.Opts, w *lineio.Writer) error {
 			obs.H = []HObs{}
 		}
 		os.RemoveAll(dir)
-		return &lineio.Case{ID: fmt.Sprintf("c19-%s-%d", in.Kind, in.Idx), In: in, Obs: obs}
+		return &lineio.Case{ID: fmt.Sprintf("c19-%s-%d#%d", in.Kind, in.Idx, i), In: in, Obs: obs}
 	})
 }
